@@ -22,15 +22,15 @@ import (
 // functions of (Seed, name) so that independent instances agree and a replay reproduces the bytes.
 type Conc struct {
 	Seed  int64
-	U     *big.Int          // one abstract unit of amount
+	U     *big.Int            // one abstract unit of amount
 	Trees map[string][]absx.M // tree id -> list of leaf records [b, seq, from, to, denom, amt]
 
-	addrRev  map[string]string
-	denomRev map[string]string
-	rootRev  map[string]absx.M
-	leafRev  map[string]string
-	metaRev  map[string]absx.M
-	dataRev  map[string]string
+	addrRev   map[string]string
+	denomRev  map[string]string
+	rootRev   map[string]absx.M
+	leafRev   map[string]string
+	metaRev   map[string]absx.M
+	dataRev   map[string]string
 	denomPool []string
 }
 
@@ -238,7 +238,9 @@ func LeafID(l absx.M) string {
 	return fmt.Sprintf("%d|%d|%s|%s|%s|%d", absx.Int(l["b"]), absx.Int(l["seq"]), absx.Str(l["from"]), absx.Str(l["to"]), absx.Str(l["denom"]), absx.Int(l["amt"]))
 }
 
-func low64(a *big.Int) uint64 { return new(big.Int).And(a, new(big.Int).SetUint64(^uint64(0))).Uint64() }
+func low64(a *big.Int) uint64 {
+	return new(big.Int).And(a, new(big.Int).SetUint64(^uint64(0))).Uint64()
+}
 
 func (c *Conc) LeafHash(l absx.M) []byte {
 	lc := c.LeafOf(l)
